@@ -128,11 +128,52 @@ pub fn cff2_table(charstring: &[u8]) -> Vec<u8> {
 
 /// The CFF2 table with explicit global / local subroutine lists.
 pub fn cff2_table_with(charstring: &[u8], gsubr_list: &[Vec<u8>], lsubr_list: &[Vec<u8>]) -> Vec<u8> {
+    cff2_table_full(charstring, gsubr_list, lsubr_list, &[], var_store())
+}
+
+/// VariationStore (u16 length + ItemVariationStore) with 1 axis, `max(counts)` identical regions [0, 1, 1] and one
+/// ItemVariationData per entry of `region_counts` referencing regions 0..count.
+pub fn var_store_with(region_counts: &[usize]) -> Vec<u8> {
+    let nreg = region_counts.iter().copied().max().unwrap_or(0);
+    let header = 8 + 4 * region_counts.len();
+    let region_list_len = 4 + 6 * nreg;
+    let mut ivs = vec![];
+    be16(&mut ivs, 1);
+    ivs.extend_from_slice(&(header as u32).to_be_bytes());
+    be16(&mut ivs, region_counts.len() as u16);
+    let mut off = header + region_list_len;
+    for c in region_counts {
+        ivs.extend_from_slice(&(off as u32).to_be_bytes());
+        off += 6 + 2 * c;
+    }
+    be16(&mut ivs, 1);
+    be16(&mut ivs, nreg as u16);
+    for _ in 0..nreg {
+        for w in [0x0000u16, 0x4000, 0x4000] {
+            be16(&mut ivs, w);
+        }
+    }
+    for c in region_counts {
+        be16(&mut ivs, 0);
+        be16(&mut ivs, 0);
+        be16(&mut ivs, *c as u16);
+        for r in 0..*c {
+            be16(&mut ivs, r as u16);
+        }
+    }
+    let mut out = vec![];
+    be16(&mut out, ivs.len() as u16);
+    out.extend(ivs);
+    out
+}
+
+/// … with `private_extra` DICT bytes before the Subrs operator of the Private DICT and an explicit VariationStore.
+pub fn cff2_table_full(charstring: &[u8], gsubr_list: &[Vec<u8>], lsubr_list: &[Vec<u8>], private_extra: &[u8], vstore: Vec<u8>) -> Vec<u8> {
     let gsubrs = index2(gsubr_list);
     let lsubrs = index2(lsubr_list);
-    let vstore = var_store();
     let top_len = 6 + 6 + 7;
-    let mut private = dict_int(6);
+    let mut private = private_extra.to_vec();
+    private.extend(dict_int(private_extra.len() as i32 + 6));
     private.push(19);
     let font_dict_len = 5 + 5 + 1;
     let fdarray_len = 4 + 1 + 8 + font_dict_len;
